@@ -25,10 +25,7 @@ out.  Token matching is a parameter (`Lex.tok t pos` = matched length), as in th
 `OrderedChoice._parse`, `Repetition._parse` and `Match._parse_comments` are separate
 functions that take the recursive call as an argument.
 
-The rest of the file is the *checker*: `wfSh` (result-shape tables are inductive), `peel` /
-`expand` (transparent `Sequence` wrappers), `align` (kid lists, including
-`x (sep x)*` against `x+[sep]`), `okPair` and `check`.  Soundness is proved in
-`Proofs/RecSim.lean`.
+The checker for simulations between two graphs is in `Peg/RecCheck.lean`.
 -/
 namespace Rec
 open Peg (Node Kind)
@@ -55,11 +52,15 @@ def Sh.add (acc v : Sh) : Sh :=
   | _ => acc
 
 structure Graph where
-  nodes : Array Node
+  size : Nat                      -- number of nodes (ids `0 … size-1`)
+  node : Nat → Option Node        -- the node table (`none` outside)
   top : Nat
   comments : Option Nat
   skipws : Bool
   ws : List Char
+
+/-- node lookup -/
+def Graph.get (g : Graph) (a : Nat) : Option Node := if a < g.size then g.node a else none
 
 structure Lex where
   input : Array Char
@@ -151,23 +152,27 @@ def commentsLoop (f : Nat → Res) (skip : Nat → Nat) : Nat → Nat → Res
 
 def isMatch (k : Kind) : Bool := k == .str || k == .re || k == .eof
 
+/-- the prologue of `Match.parse`: skip whitespace, then (unless already inside a comment)
+parse comments; `f e q` parses node `e` at `q` with `in_parse_comments` set -/
+def skipGen (g : Graph) (L : Lex) (f : Nat → Nat → Res) (n : Nat) (c : Bool) (pos : Nat) : Res :=
+  let p := skipWs g L pos
+  if c then .ok .N p else
+    match g.comments with
+    | none => .ok .N p
+    | some cm => commentsLoop (f cm) (skipWs g L) n p
+
 /-- `e.parse(parser)` for the node with index `id`; `c` = `parser.in_parse_comments` -/
 def parse (g : Graph) (L : Lex) : Nat → Nat → Bool → Nat → Res
   | 0, _, _, _ => .fuel
   | n+1, id, c, pos =>
-    match g.nodes[id]? with
+    match g.get id with
     | none => .bad
     | some nd =>
       if !supported nd then .bad else
       match nd.kind with
       | .str | .re | .eof =>
         -- Match.parse: whitespace, comments, then the match
-        let p := skipWs g L pos
-        let r := if c then Res.ok .N p else
-          match g.comments with
-          | none => Res.ok .N p
-          | some cm => commentsLoop (fun q => parse g L n cm true q) (skipWs g L) n p
-        match r with
+        match skipGen g L (fun e q => parse g L n e true q) n c pos with
         | .ok _ p => finish nd (lexTok nd L p)
         | r => r
       | .seq =>
